@@ -321,7 +321,9 @@ func (wf *WALFileType) FlushCommandsToWAL(writeCommands []*wal.WriteCommand) (er
 
 		// send transaction to replicas
 		if wf.ReplicationSender != nil {
-			wf.ReplicationSender.Send(tgSerialized)
+			// the sender queues the message and transmits it later from its own goroutine, while the
+			// primary-store writes below keep working on (and sorting in place) slices of tgSerialized
+			wf.ReplicationSender.Send(append([]byte(nil), tgSerialized...))
 		}
 	}
 
